@@ -4,6 +4,11 @@
  *         P <84 hex digits>     one packet, one frame -> {"ev":[[pgno,subno],...]}
  *         F pgno subno level    vbi_fetch_vt_page(.., 25 rows, navigation off) -> {"ok":..,"pgno","subno","rows":[[[u,fg,bg,fl,cn,sz,op],...]...]}
  *         C pgno subno          {"cached":..,"hi":..}
+ *         L                     every (pgno, subno) in the cache
+ * C03 additions (nothing above changes):
+ *         F pgno subno level 2  digest only: {"ok":..,"pgno","subno","h":<hash of all cells, colours, links>}
+ *         F pgno subno level 3  compact rows: "rows":["<40 x uuuuffbbfcs hex>",...] (same projection of blank cells)
+ *         V                     also listen to NETWORK / NETWORK_ID / LOCAL_TIME / PROG_ID events; P then prints "ev2":[[type,a,b],...]
  */
 #include <stdio.h>
 #include <stdlib.h>
@@ -16,6 +21,29 @@ static vbi_decoder *vbi;
 static double t;
 static int nev;
 static int evs[64][2];
+
+static int wide, nev2;
+static long evs2[64][3];
+
+static void handler2(vbi_event *ev, void *ud)
+{
+	(void) ud;
+	if (nev2 >= 64) return;
+	evs2[nev2][0] = ev->type; evs2[nev2][1] = 0; evs2[nev2][2] = 0;
+	if (ev->type == VBI_EVENT_NETWORK || ev->type == VBI_EVENT_NETWORK_ID) {
+		evs2[nev2][1] = ev->ev.network.cni_8301; evs2[nev2][2] = ev->ev.network.cni_8302;
+	} else if (ev->type == VBI_EVENT_LOCAL_TIME) {
+		evs2[nev2][1] = (long) ev->ev.local_time->time; evs2[nev2][2] = ev->ev.local_time->seconds_east;
+	} else if (ev->type == VBI_EVENT_PROG_ID) {
+		evs2[nev2][1] = ev->ev.prog_id->pil; evs2[nev2][2] = ev->ev.prog_id->cni;
+	}
+	nev2++;
+}
+
+static unsigned long long hmix(unsigned long long h, unsigned long long v)
+{
+	h ^= v; h *= 1099511628211ULL; return h;
+}
 
 static void handler(vbi_event *ev, void *ud)
 {
@@ -36,8 +64,12 @@ int main(void)
 			if (vbi) vbi_decoder_delete(vbi);
 			vbi = vbi_decoder_new();
 			vbi_event_handler_register(vbi, VBI_EVENT_TTX_PAGE, handler, NULL);
-			t = 1000.0;
+			t = 1000.0; wide = 0;
 			printf("{\"reset\":1}\n");
+		} else if (line[0] == 'V') {
+			vbi_event_handler_register(vbi, VBI_EVENT_NETWORK | VBI_EVENT_NETWORK_ID | VBI_EVENT_LOCAL_TIME | VBI_EVENT_PROG_ID, handler2, NULL);
+			wide = 1;
+			printf("{\"wide\":1}\n");
 		} else if (line[0] == 'P') {
 			vbi_sliced s;
 			int i;
@@ -46,11 +78,15 @@ int main(void)
 			memset(&s, 0, sizeof s);
 			s.id = VBI_SLICED_TELETEXT_B; s.line = 7;
 			for (i = 0; i < 42; i++) { unsigned v = 0; sscanf(p + 2 * i, "%2x", &v); s.data[i] = v; }
-			nev = 0;
+			nev = 0; nev2 = 0;
 			vbi_decode(vbi, &s, 1, t);
 			t += 0.04;
 			printf("{\"ev\":[");
 			for (i = 0; i < nev; i++) printf("%s[%d,%d]", i ? "," : "", evs[i][0], evs[i][1]);
+			if (wide) {
+				printf("],\"ev2\":[");
+				for (i = 0; i < nev2; i++) printf("%s[%ld,%ld,%ld]", i ? "," : "", evs2[i][0], evs2[i][1], evs2[i][2]);
+			}
 			printf("]}\n");
 		} else if (line[0] == 'F') {
 			unsigned pgno, subno; int level, ok, r, c;
@@ -61,7 +97,34 @@ int main(void)
 			ok = vbi_fetch_vt_page(vbi, &pg, pgno, subno, level == 1 ? VBI_WST_LEVEL_1 : level == 15 ? VBI_WST_LEVEL_1p5 :
 					       level == 25 ? VBI_WST_LEVEL_2p5 : VBI_WST_LEVEL_3p5, 25, 0);
 			printf("{\"ok\":%d", ok);
-			if (ok) {
+			if (ok && brief == 2) {
+				unsigned long long h = 1469598103934665603ULL;
+				h = hmix(h, pg.rows); h = hmix(h, pg.columns); h = hmix(h, pg.screen_color); h = hmix(h, pg.screen_opacity);
+				for (r = 0; r < pg.rows * pg.columns; r++) {
+					vbi_char *a = &pg.text[r];
+					h = hmix(h, a->unicode); h = hmix(h, a->foreground | a->background << 8 | a->size << 16 | a->opacity << 24);
+					h = hmix(h, a->flash | a->conceal << 1 | a->underline << 2 | a->bold << 3 | a->italic << 4 | a->proportional << 5 | a->link << 6);
+				}
+				for (c = 0; c < 40; c++) h = hmix(h, pg.color_map[c]);
+				for (c = 0; c < 6; c++) { h = hmix(h, pg.nav_link[c].pgno); h = hmix(h, pg.nav_link[c].subno); }
+				printf(",\"pgno\":%d,\"subno\":%d,\"h\":\"%016llx\"", pg.pgno, pg.subno, h);
+				vbi_unref_page(&pg);
+			} else if (ok && brief == 3) {
+				printf(",\"pgno\":%d,\"subno\":%d,\"nrows\":%d,\"ncols\":%d,\"rows\":[", pg.pgno, pg.subno, pg.rows, pg.columns);
+				for (r = 0; r < pg.rows; r++) {
+					printf("%s\"", r ? "," : "");
+					for (c = 0; c < pg.columns; c++) {
+						vbi_char *a = &pg.text[r * pg.columns + c];
+						if (a->unicode == 0x20 || a->unicode == 0xEE20 || a->unicode == 0xEE00)
+							printf("0020%02x%02x%x%x%x", 0, a->background, 0, 0, a->size);
+						else
+							printf("%04x%02x%02x%x%x%x", a->unicode, a->foreground, a->background, a->flash, a->conceal, a->size);
+					}
+					printf("\"");
+				}
+				printf("]");
+				vbi_unref_page(&pg);
+			} else if (ok) {
 				printf(",\"pgno\":%d,\"subno\":%d,\"nrows\":%d,\"ncols\":%d,\"rows\":[", pg.pgno, pg.subno, pg.rows, pg.columns);
 				for (r = 0; r < (brief ? 0 : pg.rows); r++) {
 					printf("%s[", r ? "," : "");
